@@ -15,8 +15,8 @@ ROOT = os.path.dirname(os.path.dirname(os.path.abspath(__file__)))
 REPO = os.environ.get("VERIF_REPO", "/repo")
 BUILD = os.path.join(ROOT, ".build")
 LOGS = os.path.join(BUILD, "logs")
-EVID = os.path.join(ROOT, "evidence")
-REPLAYS = os.path.join(ROOT, "replays")
+EVID = os.environ.get("VERIF_EVIDENCE_DIR", os.path.join(ROOT, "evidence"))
+REPLAYS = os.environ.get("VERIF_REPLAY_DIR", os.path.join(ROOT, "replays"))
 GUARD = "abyssiniandb_verif"
 
 
@@ -33,7 +33,7 @@ class Harness:
 
     def __init__(self, crate, name, what, tier="quick", cap=300, mem_gb=12, stubbing=False,
                  unwindset=None, mode="pass", allowed_fail=None, covers_unsat=None, bounds="",
-                 functions=None, assumptions=None, extra=None, features=None, may_unsat=None):
+                 functions=None, assumptions=None, extra=None, features=None, may_unsat=None, mem_est=None):
         self.crate = crate
         self.name = name
         self.what = what            # one line: what is decided
@@ -51,6 +51,7 @@ class Harness:
         self.extra = extra or []
         self.features = features or []      # cargo features of the harness crate (e.g. "big")
         self.may_unsat = may_unsat or []    # cover descriptions that are informative only
+        self.mem_est = mem_est or (4 if crate in ("k", "a") else 6 if crate in ("b", "m") else 12)   # GB, for scheduling
 
 
 def crate_dir(crate):
@@ -278,7 +279,11 @@ def classify(h, r):
             r["outcome"], r["reason"] = "held", ""
         return
     if r["verdict"] == "FAILED" and failed:
+        if all(c["desc"].startswith("MODEL-LIMIT") for c in failed):
+            r["outcome"], r["reason"] = "inconclusive", "the code left the access discipline the file model can represent: " + failed[0]["desc"]
+            return
         r["outcome"], r["reason"] = "failed", ""
+        r["failed_checks"] = [fc for fc in r["failed_checks"] if not fc["desc"].startswith("MODEL-LIMIT")] or r["failed_checks"]
         return
     if r["verdict"] == "FAILED" and not failed:
         # e.g. should_panic harness that did not panic, or only UNDETERMINED results
@@ -437,11 +442,30 @@ def run_property(prop, spec, tier, jobs=None):
                 inconclusive.append("build of harness crate '%s' against %s failed (see %s)" % (tag, REPO, blog))
     results = []
     if not inconclusive:
-        jobs = jobs or int(os.environ.get("VERIF_JOBS", "8"))
-        # heavier harnesses first
+        jobs = jobs or int(os.environ.get("VERIF_JOBS", "12"))
+        budget = int(os.environ.get("VERIF_MEM_GB", "48"))
+        # heavier harnesses first; at most `jobs` at a time and at most `budget` GB of estimated memory
         order = sorted(hs, key=lambda h: -h.cap)
-        with cf.ThreadPoolExecutor(max_workers=jobs) as ex:
-            futs = {ex.submit(run_harness, h, logdir): h for h in order}
+        import threading
+        cond = threading.Condition()
+        state = {"mem": 0, "n": 0}
+
+        def _run(h):
+            need = min(h.mem_est, budget)
+            with cond:
+                while state["n"] >= jobs or state["mem"] + need > budget:
+                    cond.wait()
+                state["n"] += 1
+                state["mem"] += need
+            try:
+                return run_harness(h, logdir)
+            finally:
+                with cond:
+                    state["n"] -= 1
+                    state["mem"] -= need
+                    cond.notify_all()
+        with cf.ThreadPoolExecutor(max_workers=len(order) or 1) as ex:
+            futs = {ex.submit(_run, h): h for h in order}
             for f in cf.as_completed(futs):
                 results.append((futs[f], f.result()))
     findings = load_findings()
